@@ -1440,3 +1440,63 @@ func TestD43_MemoizedRunOnceConverterStillNeedsItsArguments(t *testing.T) {
 		t.Fatalf("the target was executed")
 	}
 }
+
+// D41 (C15): a value DECLARED with an interface type but holding a bare
+// concrete value (v.Value = reflect.ValueOf(impl), which SignatureValues
+// accepts) was sent under its dynamic type by Arg()/Args(): a fully filled
+// input set did not satisfy its own function.
+func TestD41_ArgsHonourDeclaredInterfaceType(t *testing.T) {
+	f := argmapper.MustFunc(argmapper.NewFunc(func(in d30In) string { return in.R.Read() }))
+	set := f.Input()
+	set.Named("r").Value = reflect.ValueOf(&d30Buf{"x"})
+	res, p := call(f, set.Args()...)
+	if p != nil {
+		t.Fatalf("panic: %v", p)
+	}
+	if res.Err() != nil {
+		t.Fatalf("the function called with its own, fully filled input set: %v", res.Err())
+	}
+	if res.Out(0).(string) != "x" {
+		t.Fatalf("got %v", res.Out(0))
+	}
+}
+
+// D42 (C01): Redefine dropped the subtype of the inputs it declares. The
+// redefined function then accepted a value labelled with ANOTHER subtype and
+// handed it to a parameter of the original function that demands its own.
+type d42V struct{ N int }
+
+func TestD42_RedefineKeepsSubtypes(t *testing.T) {
+	ran := 0
+	f := argmapper.MustFunc(argmapper.NewFunc(func(in struct {
+		argmapper.Struct
+		V d42V `argmapper:",typeOnly,subtype=s1"`
+	}) int {
+		ran++
+		return in.V.N
+	}))
+	// control: the original function refuses a value under another subtype
+	if res, _ := call(f, argmapper.TypedSubtype(d42V{7}, "s2")); res.Err() == nil {
+		t.Fatalf("control: the original function accepted a value labelled s2 for a parameter labelled s1")
+	}
+	rf, err := f.Redefine()
+	if err != nil {
+		t.Fatal(err)
+	}
+	vals := rf.Input().Values()
+	if len(vals) != 1 || vals[0].Subtype != "s1" {
+		t.Fatalf("inputs of the redefined function: %v", vals)
+	}
+	before := ran
+	res, p := call(rf, argmapper.TypedSubtype(d42V{7}, "s2"))
+	if p != nil {
+		t.Fatalf("panic: %v", p)
+	}
+	if res.Err() == nil || ran != before {
+		t.Fatalf("the redefined function ran the original with a value labelled s2 in its s1 parameter")
+	}
+	res, p = call(rf, argmapper.TypedSubtype(d42V{7}, "s1"))
+	if p != nil || res.Err() != nil || res.Out(0).(int) != 7 {
+		t.Fatalf("with the right subtype: %v %v", p, res.Err())
+	}
+}
